@@ -193,7 +193,7 @@ func judgeError(t *T, ls *layerStack, o Op, got, want error, sig string) {
 			if wsh.Type == "PathError" && bad(wsh.Path) == "" && want != nil {
 				expect = wsh.Path
 			}
-			if sh.Path != expect && sh.Path != o.P {
+			if sh.Path != expect && sh.Path != o.P && !(want == nil && related(sh.Path, o.P)) {
 				k := "differs"
 				if b := bad(sh.Path); b != "" && o.P != "" {
 					k = b
@@ -201,7 +201,8 @@ func judgeError(t *T, ls *layerStack, o Op, got, want error, sig string) {
 				t.Fail("path", base+":path-"+k, detail(fmt.Sprintf("PathError names %q; os names %q for this failure (name passed in: %q)", sh.Path, expect, o.P)))
 			}
 		default:
-			if sh.Path != o.P {
+			if sh.Path != o.P && !(o.Kind == "ReadDir" && strings.HasPrefix(sh.Path, strings.TrimPrefix(o.P+"/", "./"))) {
+				// (a listing may fail on one of its entries and name that entry, as os.ReadDir does)
 				k := "differs"
 				if b := bad(sh.Path); b != "" && o.P != "" {
 					k = b
@@ -223,9 +224,97 @@ func judgeError(t *T, ls *layerStack, o Op, got, want error, sig string) {
 	}
 }
 
+// c05StoreFault: histories on keyvalue.FS whose store fails one call; the error of the operation in
+// which the fault fired is judged for type and path (the inner-step errors of C05).
+func c05StoreFault(t *T) {
+	c := t.C
+	kind := c.Draw(3)
+	faultKind := []string{"Set", "Get", "Data", "ReadDirNames", "Transaction"}[c.Weighted(4, 3, 2, 2, 1)]
+	plan := &faultPlan{t: t, kind: faultKind}
+	plan.at = c.Draw(map[string]int{"Set": 6, "Get": 20, "Data": 3, "ReadDirNames": 3, "Transaction": 20}[faultKind])
+	names := []string{"a", "b", "a/c", "d"}
+	n := 2 + c.Draw(10)
+	inBubble(t, 50000, func(s *Sched) {
+		s.Go("client", func() {
+			st := c14Build(t, kind, plan)
+			ls := &layerStack{name: st.name, family: "kv-store-fault"}
+			for _, o := range []Op{opMkdir("a"), opWrite("b")} {
+				if c.Chance(1, 2) {
+					applyOp(st.fs, o)
+				}
+			}
+			plan.armed = true
+			plan.calls = 0
+			t.Logf("mode=store-fault stack=%s fault=%s at=%d", st.name, faultKind, plan.at)
+			for i := 0; i < n; i++ {
+				p := names[c.Draw(len(names))]
+				var o Op
+				switch c.Draw(11) {
+				case 0:
+					o = Op{Kind: "Mkdir", P: p, Perm: 0755}
+				case 1:
+					o = Op{Kind: "WriteFullFile", P: p, Perm: 0644, Data: uniqueData(i, 5)}
+				case 2:
+					o = Op{Kind: "Remove", P: p}
+				case 3:
+					o = Op{Kind: "Rename", P: p, Q: names[c.Draw(len(names))]}
+				case 4:
+					o = Op{Kind: "Stat", P: p}
+				case 5:
+					o = Op{Kind: "ReadFile", P: p}
+				case 6:
+					o = Op{Kind: "MkdirAll", P: p, Perm: 0700}
+				case 7:
+					o = Op{Kind: "Chmod", P: p, Perm: 0600}
+				case 8:
+					o = Op{Kind: "Chtimes", P: p, Mtime: 1e9 + int64(i)}
+				case 9:
+					o = Op{Kind: "OpenFile", P: p, Flag: []int{rdwr | creat, wronly | trunc, rdwr | creat | trunc, rdonly}[c.Draw(4)], Perm: 0644, Data: uniqueData(i, 3)}
+				default:
+					o = Op{Kind: "ReadDir", P: []string{".", p}[c.Draw(2)]}
+				}
+				before := plan.fired
+				var out Out
+				if o.Kind == "OpenFile" {
+					f, err := hackpadfs.OpenFile(st.fs, o.P, o.Flag, o.Perm) // only the open itself is the FS-level operation judged here
+					out.Err = err
+					if err == nil {
+						plan.armed = false
+						f.Close()
+						plan.armed = plan.fired == 0
+					}
+				} else {
+					out = applyOp(st.fs, o)
+				}
+				t.Logf("%d %s -> %v", i, o, out.Err)
+				if plan.fired > before {
+					plan.armed = false
+					if out.Err != nil {
+						t.Stat("probe:store-fault-surfaced-as-error")
+						sig := o.Kind + ":fault=" + strings.Fields(plan.firedAt)[0]
+						judgeError(t, ls, o, out.Err, nil, sig)
+						sh := shapeOf(out.Err)
+						switch {
+						case sh.Type == "PathError" && sh.Path != o.P && !related(sh.Path, o.P):
+							t.Fail("path", "C05:kv-store-fault:"+sig+":path-unrelated", fmt.Sprintf("%s failed because the store failed (%s); the error names %q", o, plan.firedAt, sh.Path))
+						}
+						t.NonTrivial()
+					}
+					return
+				}
+			}
+		})
+		s.Run()
+	})
+}
+
 func runC05(t *T) {
 	c := t.C
 	defer beginTrial(t, true)()
+	if c.Chance(1, 5) {
+		c05StoreFault(t)
+		return
+	}
 	ref, _, cleanup := osTwin(t)
 	defer cleanup()
 	k := c.Draw(lsCount)
